@@ -499,6 +499,95 @@ def describe_rejection(tout):
     return s
 
 
+# ---------------------------------------------------------------- recorded conversations (PgFlow)
+
+FLOW_ATTR = {"start": "C12", "auth": "C01", "simple": "C05", "ext": "C06", "term": "C19", "other": "C06"}
+
+
+def flow_attribution(tout):
+    """Which property a PgFlow rejection belongs to (from the state at the rejected line)."""
+    ev = re.search(r'<<"event",\s*\[k \|-> "(\w+)"', tout)
+    st = re.search(r'cur \|-> \[s \|-> "(\w+)"', tout)
+    fam = re.search(r'fam \|-> "(\w+)"', tout)
+    s = st.group(1) if st else ""
+    if s in ("qcopy", "xcopy"):
+        return "C13"
+    if s == "big":
+        return "C10"
+    if ev and ev.group(1) == "close":
+        return "C19"
+    return FLOW_ATTR.get(fam.group(1) if fam else "", "C06")
+
+
+def flow_record(cx, source, behaviours, tag):
+    """Record raw conversations through the library's connection recorder and decode them."""
+    rec = cx.dir("rec-%s" % tag)
+    for f in glob.glob(os.path.join(rec, "*")):
+        os.remove(f)
+    env = dict(GOENV)
+    env["PSQLWIRE_VERIF_TRACE"] = rec
+    if source == "suite":
+        # the repository's own tests (pgx, lib/pq, raw sockets); their verdict is not ours (the suite is flaky
+        # on its own), only the conversations they produce are judged
+        p = sh(["go", "test", "-tags", "verif", "-vet=off", "-count=1", "."], cwd=REPO, env=env, timeout=900, check=False)
+        if "build failed" in p.stdout or "cannot find" in p.stdout:
+            raise Machinery("the repository's tests do not build with the verif tag:\n" + p.stdout[-2000:])
+    else:
+        p = subprocess.run([cx.bin, "play", "-in", behaviours, "-out", os.path.join(rec, "ignored.ndjson"), "-seed",
+                            str(cx.seed), "-proj", cx.pid], cwd=cx.scratch, env=env, stdout=subprocess.PIPE,
+                           stderr=subprocess.STDOUT, text=True, timeout=3600)
+        if p.returncode != 0:
+            return None, {"index": -1, "output": p.stdout[-3000:], "rc": p.returncode}
+    trace = os.path.join(cx.scratch, "flow-%s.ndjson" % tag)
+    harness(cx, ["decode", "-dir", rec, "-out", trace])
+    return trace, None
+
+
+def flow_step(cx, behaviours=None, max_play=400):
+    """Conversations recorded from the real server - the repository's own test suite and the harness's random
+    sessions - judged by the handler-agnostic specification PgFlow. Only rejections that belong to this
+    property are reported (the others belong to the checks of the properties they are attributed to)."""
+    sources = [("suite", None)]
+    if behaviours:
+        b = os.path.join(cx.scratch, "flow-beh.ndjson")
+        open(b, "w").write("\n".join(read_lines(behaviours)[:max_play]) + "\n")
+        sources.append(("play", b))
+    for source, b in sources:
+        trace, crash = flow_record(cx, source, b, source)
+        if crash:
+            continue   # a crash of the harness is judged by the main procedure on the same behaviours
+        n0 = cx.cov["traces_validated_against_impl"]
+        rejected = validate(cx, trace, "Trace_PgFlow")
+        cx.cov.setdefault("flow_connections", 0)
+        cx.cov["flow_connections"] += cx.cov["traces_validated_against_impl"] - n0
+        mine = [r for r in rejected if flow_attribution(r["tlc"]) == cx.pid]
+        for r in rejected:
+            if r not in mine:
+                log("[flow] a recorded conversation is rejected, attributed to %s (not judged here)" % flow_attribution(r["tlc"]))
+        if not mine:
+            continue
+        # reproduce: record again
+        again = None
+        for attempt in range(3):
+            t2, c2 = flow_record(cx, source, b, "%s-re%d" % (source, attempt))
+            if c2:
+                continue
+            rj2 = [r for r in validate(cx, t2, "Trace_PgFlow") if flow_attribution(r["tlc"]) == cx.pid]
+            if rj2:
+                again = (t2, rj2[0])
+                break
+        if not again:
+            raise Machinery("a recorded conversation (%s) was rejected by PgFlow but not again when recorded anew:\n%s"
+                            % (source, mine[0]["tlc"]))
+        t2, r = again
+        lines = read_lines(t2)[r["first"] - 1:r["last"]]
+        what = "recorded conversation (%s): %s" % (
+            "repository test suite" if source == "suite" else "harness session", describe_rejection(r["tlc"]))
+        d = bundle(cx, what, "\n".join(read_lines(b)) if b else "{}", lines, r["tlc"], play_cmd="flow-" + source,
+                   trace_module="Trace_PgFlow")
+        cx.violations.append((what, d))
+
+
 # ---------------------------------------------------------------- evidence
 
 def sample_behaviours(cx, path, k=2):
